@@ -22,13 +22,16 @@ var schedUsers = []seedUser{
 }
 
 func genOp(t *rapid.T, label string, pwTag *int) opSpec {
-	kind := rapid.SampledFrom([]string{"auth", "auth", "auth", "update", "update", "add", "remove", "setadmin", "list", "listfull", "check"}).Draw(t, label+"kind")
+	kind := rapid.SampledFrom([]string{"auth", "auth", "auth", "update", "update", "add", "remove", "setadmin", "list", "listfull", "check", "web-auth-abandon"}).Draw(t, label+"kind")
 	user := rapid.SampledFrom([]string{"old1", "old2", "cur1", "root", "new1", "nosuch"}).Draw(t, label+"user")
 	op := opSpec{Kind: kind}
 	switch kind {
-	case "auth":
+	case "auth", "web-auth-abandon":
 		op.User = user
 		op.PW = rapid.SampledFrom([]string{user + "pw", user + "pw", "wrong"}).Draw(t, label+"pw")
+		if kind == "web-auth-abandon" {
+			vlib.Class("op:web-request-abandoned-by-its-client")
+		}
 	case "update", "add":
 		*pwTag++
 		op.User, op.PW, op.Admin = user, fmt.Sprintf("n%d", *pwTag), rapid.Bool().Draw(t, label+"adm")
